@@ -413,34 +413,6 @@ def ebcdic_blocks(rng):
     return out
 
 
-def lis_overcount_finding(true_mod):
-    """Classifier of known finding C20-lis-padded-wrong-option-overcounts for a plain null-padded file whose own pad option
-    is (true_mod, False): the answer is '' and, in both rounds, an option other than the file's own counts more records."""
-    def classify(b, out):
-        if out != '':
-            return None
-        from TotalDepth.LIS.core import File
-        for lim in (100, 0):
-            d = {(k.pad_modulo, k.pad_non_null): v for k, v in File.scan_file_with_different_padding(io.BytesIO(b), True, lim).items()}
-            if not (0 < d[(true_mod, False)] < max(d.values())):
-                return None
-        return 'C20-lis-padded-wrong-option-overcounts'
-    return classify
-
-
-def lispad_finding(name, expect, rec):
-    """finding classifier for a generated padded plain LIS file (None for everything else)"""
-    if name != 'lispad' or expect != 'LIS' or rec.get('nonnull'):
-        return None
-    if rec.get('padbreak') == 'short':
-        return lis_overcount_finding(2)
-    if rec.get('padbreak') == 'late':
-        return lis_overcount_finding(rec['mod'])
-    if rec.get('padded') and rec['padded'][0] == 'mod' and rec['padded'][1] in (2, 4):
-        return lis_overcount_finding(rec['padded'][1])
-    return None
-
-
 def odd_version_las(rng):
     """LAS texts that the LAS reader accepts (VERS is numerically 1.2 / 2.0, C09 `checkV`) but whose version value is not
     spelled with the prefix `1.2` / `2.0`, or that give VERS a unit: class of known finding FC20d."""
@@ -631,8 +603,7 @@ def run(ctx):
                 b, expect, rec = generate_sized(name, target, seed)
                 if name in ('lis', 'lispad') and expect != 'LIS' and rec.get('first_pr') == 276:
                     expect = None
-                B.run_one('sized:' + name, b, {'sized': name, 'target': target, 'seed': seed}, expect=expect, check_path=(d == 0 and kk % 4 == 0),
-                          finding_if_wrong=lispad_finding(name, expect, rec))
+                B.run_one('sized:' + name, b, {'sized': name, 'target': target, 'seed': seed}, expect=expect, check_path=(d == 0 and kk % 4 == 0))
         B.flush()
     # ---- 1c. path histories: the answer is a function of the bytes, not of what was at that path before
     run_histories(ctx, bft)
@@ -647,7 +618,7 @@ def run(ctx):
             origin = {'gen': name, 'seed': seed}
             if name in ('lis', 'lispad') and expect != 'LIS' and rec.get('first_pr') == 276:
                 expect = None      # the stated exclusion: TIF-marked, first record exactly 276 bytes (BIT signature)
-            B.run_one('valid:' + name, b, origin, expect=expect, check_path=(k % 10 == 0), finding_if_wrong=lispad_finding(name, expect, rec))
+            B.run_one('valid:' + name, b, origin, expect=expect, check_path=(k % 10 == 0))
             if k < ctx.n(2, 6):
                 valid.append((b, expect, origin))
             if k == 0:
